@@ -17,9 +17,11 @@ import contracts.c09_state  # noqa: F401
 T = 'cylc.flow.task_proxy:TaskProxy.'
 PROPS = ['C27']
 
+import contracts.c10_messages  # noqa: F401,E402  (itask.summary is the record RecSummary declared there)
+
 schema('TaskProxy', 'cylc.flow.task_proxy:TaskProxy', fields={
-    'reload_successor': 'opt[TaskProxy]', 'summary': 'any', 'local_job_file_path': 'any',
-    'try_timers': 'dict[str,TaskActionTimer]', 'platform': 'any', 'job_vacated': 'bool', 'poll_timer': 'any',
+    'reload_successor': 'opt[TaskProxy]', 'local_job_file_path': 'any',
+    'try_timers': 'dict[str,TaskActionTimer]', 'platform': 'any', 'poll_timer': 'any',
     'timeout': 'any', 'mode_settings': 'any'})
 schema('TaskState', 'cylc.flow.task_state:TaskState', fields={'outputs': 'TaskOutputs'})
 
